@@ -122,6 +122,11 @@ def _vdw_ap_generator(N, k):
     # the largest gap d must be such that
     # 1+ d*(k-1) <= N
     # so d <= (N-1)/(k-1)
+    if k == 1:
+        # every single number is a progression of length 1
+        for i in range(1, N + 1):
+            yield [i]
+        return
     max_d = (N - 1) // (k - 1)
     for d in range(1, max_d + 1):
         max_i = N - d * k + d
